@@ -17,7 +17,7 @@ RULE = ("axis sizes 0..5; start, stop in {None, -7..7}; step in {None, +-1, +-2,
         "model judged it (step 0 and 'no row selected + column out of range' are recorded as unjudged)")
 ASSUMPTIONS = ["Python's built-in list indexing is the specification", "arrays are built over fresh variables; identity (is) of elements is compared"]
 REQUIRED = ["mindex.getitem2d", "mindex.getitem1d", "mindex.flatten", "mindex.reshape", "mindex.model_indexerror", "c13.neg_step_keys",
-            "c13.coordinate_lists", "c13.huge_bounds", "c13.empty_arrays", "c13.constructors"]
+            "c13.coordinate_lists", "c13.huge_bounds", "c13.empty_arrays", "c13.constructors", "c13.history_checked"]
 
 
 def plan(tier):
@@ -156,6 +156,7 @@ def run(ctx):
             try_get(ctx, st, a1, slice(rng.choice([None, rng.randint(-n - 3, n + 3)]), rng.choice([None, rng.randint(-n - 3, n + 3)]), rng.choice([None, 1, -1, 2, -3, 7])))
             try_get(ctx, st, a1, rng.randint(-n - 2, n + 1))
     constructors(ctx, s, rng)
+    histories(ctx, s, rng)
     realistic_stage(ctx, thorough)
     ctx.sample({"shape": [2, 4], "key": ["tuple", 0, ["slice", 10, None, -1]], "list_model": "row 0 reversed"})
     ctx.sample({"shape": [3, 3], "key": ["tuple", ["slice", None, None, -2], -1]})
@@ -185,6 +186,133 @@ def constructors(ctx, s, rng):
                 a1 = cls1(flat)
                 if [a1[i] for i in range(len(flat))] != flat or len(a1) != len(flat):
                     ctx.violation("constructor:1d", "1D array does not index like the list it was built from", {"kind": kind, "n": len(flat)})
+
+
+def _ideq(a, b):
+    a, b = list(a), list(b)
+    return len(a) == len(b) and all(x is y for x, y in zip(a, b))
+
+
+def _same(arr, want_rows):
+    """arr (1D or 2D) indexes like the snapshot `want_rows` (list or list of lists) that the HARNESS holds"""
+    if want_rows and isinstance(want_rows[0], list) or (len(arr.shape) == 2):
+        h = len(want_rows)
+        w = len(want_rows[0]) if h else 0
+        if tuple(arr.shape) != (h, w) and not (w == 0 and arr.shape[0] == h):
+            return False
+        if any(arr[y, x] is not want_rows[y][x] for y in range(h) for x in range(w)):
+            return False
+        for (y, x) in ((h, 0), (0, w), (-h - 1, 0), (0, -w - 1)):
+            if w == 0:
+                continue
+            try:
+                arr[y, x]
+                return False
+            except IndexError:
+                pass
+        return _ideq(arr.flatten(), [v for r in want_rows for v in r]) if w else True
+    n = len(want_rows)
+    if tuple(arr.shape) != (n,) or len(arr) != n or not _ideq(arr, want_rows):
+        return False
+    if any(arr[i] is not want_rows[i] or arr[i - n] is not want_rows[i] for i in range(n)):
+        return False
+    for k in (n, -n - 1):
+        try:
+            arr[k]
+            return False
+        except IndexError:
+            pass
+    sl = arr[::-1]
+    return _ideq(sl, want_rows[::-1]) and _ideq(arr[1:], want_rows[1:])
+
+
+def histories(ctx, s, rng):
+    """Indexing must follow the list the array was built from - also after the caller goes on using (editing) that list, and after
+    the array has been an operand of constructors, slices, flatten/reshape and elementwise operators.  The snapshots are the
+    harness's own lists, never the arrays' bookkeeping."""
+    from cspuz import count_true, fold_or
+    for rep in range(60):
+        kind = rng.choice("bi")
+        cls2 = BoolArray2D if kind == "b" else IntArray2D
+        cls1 = BoolArray1D if kind == "b" else IntArray1D
+        mkv = (lambda: s.bool_var()) if kind == "b" else (lambda: s.int_var(0, 3))
+        h, w = rng.randint(1, 4), rng.randint(1, 4)
+        ctx.case(["history", kind, h, w, rep], nontrivial=True)
+        book = []  # (label, array, snapshot)
+
+        def edit(lst):
+            op = rng.randrange(4)
+            if op == 0:
+                lst.append(mkv())
+            elif op == 1:
+                lst.reverse()
+            elif op == 2:
+                lst.clear()
+            else:
+                lst[:] = [mkv() for _ in lst]
+
+        # 1. arrays from lists the caller then edits
+        src = [mkv() for _ in range(w * h)]
+        a1 = cls1(src)
+        book.append(("1d-from-list", a1, list(src)))
+        snap = list(src)
+        edit(src)
+        nested = [[mkv() for _ in range(w)] for _ in range(h)]
+        snap2 = [list(r) for r in nested]
+        a2 = cls2(nested)
+        book.append(("2d-from-nested", a2, snap2))
+        flat = [v for r in snap2 for v in r]
+        a3 = cls2(flat, (h, w))
+        book.append(("2d-from-flat", a3, [list(r) for r in snap2]))
+        edit(flat)
+        for r in nested:
+            edit(r)
+        edit(nested)
+        # 2. arrays built from other arrays: rows, slices, stacked rows
+        rows = [cls1([mkv() for _ in range(w)]) for _ in range(h)]
+        rsnap = [[v for v in r.data] for r in rows]  # taken right at construction from fresh lists
+        for i, r in enumerate(rows):
+            book.append((f"row{i}", r, list(rsnap[i])))
+        st1 = cls2(rows)
+        book.append(("stacked-rows", st1, [list(r) for r in rsnap]))
+        st2 = cls2([a2[y] for y in range(h)]) if w else None
+        if st2 is not None:
+            book.append(("restacked-index-rows", st2, [list(r) for r in snap2]))
+            st3 = cls2([a2[y, :] for y in range(h - 1, -1, -1)])
+            book.append(("restacked-reversed", st3, [list(r) for r in snap2[::-1]]))
+            col = a2[:, 0]
+            book.append(("column", col, [r[0] for r in snap2]))
+            st4 = cls2([col, col])
+            book.append(("stacked-columns", st4, [[r[0] for r in snap2]] * 2))
+        fl = a2.flatten()
+        book.append(("flatten", fl, [v for r in snap2 for v in r]))
+        if h * w:
+            rs = fl.reshape((w, h))
+            fsn = [v for r in snap2 for v in r]
+            book.append(("reshape", rs, [fsn[i * h:(i + 1) * h] for i in range(w)]))
+        # 3. use them as operands (results discarded: operators must not disturb their operands)
+        for _, arr, _ in list(book):
+            try:
+                if kind == "b":
+                    (~arr, arr | arr, fold_or(arr), count_true(arr), arr.fold_and())
+                else:
+                    (arr + 1, arr == arr, arr.alldifferent() if hasattr(arr, "alldifferent") else None)
+            except Exception:
+                pass
+        list(iter(a1)), list(iter(fl))
+        # 4. everything still indexes like its snapshot
+        for label, arr, want in book:
+            ctx.count("c13.history_checked")
+            try:
+                ok = _same(arr, want)
+            except Exception as e:
+                ctx.violation(f"history:{label.rstrip('0123456789')}:raises:{type(e).__name__}", f"indexing {label} raised {e!r} after later use",
+                              {"kind": kind, "shape": [h, w], "label": label})
+                continue
+            if not ok:
+                ctx.violation(f"history:{label.rstrip('0123456789')}", f"{label} no longer indexes like the list it was built from, after the caller's "
+                              "list was edited / the array was used as an operand", {"kind": kind, "shape": [h, w], "label": label})
+        assert snap is not None
 
 
 def realistic_stage(ctx, thorough):
